@@ -2,7 +2,7 @@
 import ast
 
 from ..loader import AnalysisError, norm, walk_shallow
-from ..cfg import build_cfg
+from ..cfg import build_cfg, node_calls
 from ..flow import Flow, NONE, NOTNONE, TRUE, FALSE, TRUTHY, FALSY, is_const, valuations
 from ..inter import Inter
 from ..util import callee_name, all_calls, arg, need, single_def, names_in, assignments_to
@@ -125,6 +125,31 @@ def persistence_rule(ctx, rid):
         d = single_def(fn_, v, gg)
         is_copy = d is not None and isinstance(d[1], ast.Call) and norm(d[1].func) in ("copy.deepcopy", "deepcopy") and "farmer" in norm(d[1])
         clears = [n for n in gg.nodes if n.kind == "stmt" and isinstance(n.ast, ast.Assign) and norm(n.ast.targets[0]) == v + ".fn" and isinstance(n.ast.value, ast.Constant) and n.ast.value.value is None]
+        # the persisted copy differs from the live farmer in nothing but the function: no other store on the copy, or on anything
+        # reached from it (runner_copy = getattr(copy, "runner", copy); runner_copy.resources = {} ...)
+        tainted = {v}
+        changed_ = True
+        while changed_:
+            changed_ = False
+            for n_ in gg.nodes:
+                if n_.kind == "stmt" and isinstance(n_.ast, ast.Assign) and isinstance(n_.ast.targets[0], ast.Name) and n_.ast.targets[0].id not in tainted and names_in(n_.ast.value) & tainted \
+                        and not (isinstance(n_.ast.value, ast.Call) and callee_name(ctx, fn_, n_.ast.value) == CROP + ".to_pickle"):
+                    tainted.add(n_.ast.targets[0].id)
+                    changed_ = True
+        for n_ in gg.nodes:
+            if n_.kind == "stmt" and isinstance(n_.ast, (ast.Assign, ast.AugAssign)):
+                for t_ in (n_.ast.targets if isinstance(n_.ast, ast.Assign) else [n_.ast.target]):
+                    root = t_
+                    while isinstance(root, (ast.Attribute, ast.Subscript)):
+                        root = root.value
+                    if isinstance(t_, (ast.Attribute, ast.Subscript)) and isinstance(root, ast.Name) and root.id in tainted:
+                        if norm(t_) == v + ".fn" and isinstance(n_.ast, ast.Assign) and isinstance(n_.ast.value, ast.Constant) and n_.ast.value.value is None:
+                            continue
+                        rr.bad(ctx.finding(rid, fn_, n_.ast, "the farmer persisted with the crop is altered before it is pickled (`%s`): a crop reloaded from its folder then works with another %s than the live farmer a direct run uses, so what it reaps / sows is not what the direct run gives"
+                                           % (norm(n_.ast)[:70], norm(t_).split(".", 1)[-1]), construct="farmer-copy-altered " + norm(t_).split(".", 1)[-1]), "farmer copy unaltered")
+            for c_ in node_calls(n_):
+                if norm(c_.func) == "setattr" and c_.args and isinstance(c_.args[0], ast.Name) and c_.args[0].id in tainted:
+                    raise AnalysisError("idiom changed: setattr on the farmer copy in %s" % fn_.qualname)
         if is_copy and clears and gg.completes_before(d[0].id, clears[0].id) and gg.completes_before(clears[0].id, pn.id):
             verdict = "ok"
         elif d is None or not is_copy or not clears:
